@@ -114,6 +114,19 @@ def instances(tier):
             for L in range(1, 8 if tier == "quick" else 14):
                 for m in range(-L - 3, L + 4):
                     out.append(("floating_point_algorithms.laurent", dict(scheme=sch, reverse=rev, L=L, m=m)))
+    # concrete corner cases of the quantifier the symbolic runs cannot present: Python-int coefficients, zero coefficients
+    for N in (2, 3, 5):
+        out.append(("concrete.int-coefficients", dict(N=N, what="asrpolynomial")))
+        out.append(("concrete.int-coefficients", dict(N=N, what="divmod")))
+    for N, z in ((2, 0), (2, 1), (3, 1), (3, 2), (2, 2), (3, 3)):
+        out.append(("concrete.zero-coefficient", dict(N=N, zero_at=z)))
+    # the context-based evaluators on the package's own contexts
+    for cname in ("FractionContext", "Context"):
+        for N in (0, 1, 4, 9):
+            for what in ("horner", "fast_polynomial", "rpolynomial"):
+                out.append(("contexts", dict(N=N, what=what, ctx=cname)))
+        for m in (-6, -2, -1, 1, 3):
+            out.append(("contexts", dict(N=3, what="laurent", ctx=cname, m=m)))
     # divmod: symbolic coefficients, every zero pattern reached by forking
     dm = 6 if tier == "quick" else 8
     for rev in (False, True):
@@ -268,8 +281,6 @@ def run_instance(arg, concrete=None):
         N, rev, size = p["N"], p["reverse"], p["size"]
         c = [mk("c%03d" % i) for i in range(N + 1)]
         z0 = mk("z0")
-        if rev and size is not None:
-            return True, dict(skipped="size is ignored when reverse=True (not part of the statement)")
         got = P.taylorat(c, z0, reverse=rev, size=size)
         cc, g = (c[::-1], got[::-1]) if rev else (c, got)
         if size is None:
@@ -279,7 +290,7 @@ def run_instance(arg, concrete=None):
             return (len(g) == N + 1) and same(have, want), dict(got=repr(got)[:300])
         # truncated: C_m = P^(m)(z0)/m! for m < size
         ok = len(g) == size
-        full = P.taylorat(c, z0, reverse=False, size=None)
+        full = P.taylorat(cc, z0, reverse=False, size=None)
         ok = ok and all(same(u, v) for u, v in zip(g, full[:size]))
         return ok, dict(got=repr(got)[:300])
     if fn == "floating_point_algorithms.laurent":
@@ -304,6 +315,82 @@ def run_instance(arg, concrete=None):
         return same(have, want), dict(got=repr(got)[:300])
     if fn == "polynomial.divmod":
         return _divmod_instance(p, concrete)
+    if fn == "concrete.int-coefficients":
+        # Python ints are rationals: the conversions must stay exact on them
+        rnd = random.Random(1000 + p["N"])
+        cs = [rnd.choice([-7, -3, -2, -1, 1, 2, 3, 5, 7, 11]) for _ in range(p["N"] + 1)]
+        xv = Fraction(rnd.randint(1, 5), rnd.randint(2, 7))
+        want = sum((Fraction(ci) * xv**i for i, ci in enumerate(cs)), Fraction(0))
+        if p["what"] == "asrpolynomial":
+            got = P.rpolynomial(xv, P.asrpolynomial(list(cs)))
+            return got == want, dict(coefficients=cs, x=str(xv), got=repr(got), want=str(want))
+        D = [rnd.choice([-3, -2, 2, 3, 5]) for _ in range(max(1, p["N"] // 2))]
+        Q, R = P.divmod(list(cs), list(D))
+        ev = lambda lst: sum((Fraction(v) * xv**i for i, v in enumerate(lst)), Fraction(0))  # noqa
+        exact = ev(cs) == ev(Q) * ev(D) + ev(R)  # Fraction(float) is the float's exact value
+        return exact, dict(P=cs, D=D, Q=repr(Q)[:200], R=repr(R)[:200])
+    if fn == "concrete.zero-coefficient":
+        # the quantifier includes zero coefficients: coefficient form -> ratio form -> value
+        cs = [Fraction(3), Fraction(4), Fraction(5, 2), Fraction(7)][: p["N"] + 1]
+        cs[p["zero_at"]] = Fraction(0)
+        xv = Fraction(2, 3)
+        want = sum((ci * xv**i for i, ci in enumerate(cs)), Fraction(0))
+        try:
+            got = P.rpolynomial(xv, P.asrpolynomial(list(cs)))
+        except ZeroDivisionError as e:
+            return False, dict(coefficients=[str(v) for v in cs], raised=repr(e))
+        return got == want, dict(coefficients=[str(v) for v in cs], got=str(got), want=str(want))
+    if fn == "contexts":
+        # the context-based evaluators on the package's own contexts (not only on the ring-valued one of this file)
+        import functional_algorithms as fa
+        import functional_algorithms.utils as U
+
+        rnd = random.Random(2000 + p["N"])
+        # dyadic rationals: exact as floats too, so the same data serve the tracing context
+        cs = [Fraction(rnd.randint(-9, 9) or 1, rnd.choice([1, 2, 4])) for _ in range(p["N"] + 1)]
+        xv = Fraction(rnd.choice([1, 3, 5]), rnd.choice([2, 4]))
+        m = p.get("m", 0)
+        want = sum((ci * xv ** (i + m) for i, ci in enumerate(cs)), Fraction(0))
+        which, cname = p["what"], p["ctx"]
+        if cname == "FractionContext":
+            ctx = U.FractionContext()
+            if which == "horner":
+                got = F.horner(ctx, xv, list(cs), reverse=False)
+            elif which == "fast_polynomial":
+                got = F.fast_polynomial(ctx, xv, list(cs), reverse=False)
+            elif which == "rpolynomial":
+                got = F.rpolynomial(ctx, xv, P.asrpolynomial(list(cs), reverse=False), reverse=False)
+            else:
+                got = F.laurent(ctx, xv, list(cs), m, reverse=False)
+            return got == want, dict(coefficients=[str(v) for v in cs], x=str(xv), got=str(got), want=str(want))
+        # tracing context: trace, print for the Python target, evaluate the emitted function on Fractions
+        import warnings
+
+        def f(ctx, x: float):
+            lst = [float(ci) for ci in cs]  # raw numbers: the evaluators wrap them as constants themselves
+            if which == "horner":
+                return F.horner(ctx, x, lst, reverse=False)
+            if which == "fast_polynomial":
+                return F.fast_polynomial(ctx, x, lst, reverse=False)
+            if which == "rpolynomial":
+                return F.rpolynomial(ctx, x, P.asrpolynomial(lst, reverse=False), reverse=False)
+            return F.laurent(ctx, x, lst, m, reverse=False)
+
+        with warnings.catch_warnings():
+            warnings.simplefilter("ignore")
+            c2 = fa.Context(paths=[fa.algorithms])
+            g = c2.trace(f, float)
+            src = g.tostring(fa.targets.python)
+        ns = {}
+        import math as _math
+
+        exec(compile(src, "<emitted>", "exec"), dict(math=_math, Fraction=Fraction), ns)
+        fun = next(v for v in ns.values() if callable(v))
+        # dyadic data: every intermediate value is exact in double precision except the ratio form (divisions): tolerance there
+        got = fun(float(xv))
+        inexact = which == "rpolynomial" or (which == "laurent" and m < 0)  # divisions: not exact in double precision
+        ok = (got == float(want)) if not inexact else abs(got - float(want)) <= 1e-12 * max(1.0, abs(float(want)))
+        return ok, dict(coefficients=[str(v) for v in cs], x=str(xv), got=repr(got), want=str(want))
     raise KeyError(fn)
 
 
@@ -446,6 +533,8 @@ def replay_instance(arg, seed=0, detail=None):
 
 def witness_class(arg):
     fn, p = arg
+    if fn.startswith("concrete."):
+        return fn  # one cause per family: the instances only vary the data
     return "%s %s" % (fn, " ".join("%s=%s" % (k, p[k]) for k in sorted(p)))
 
 
